@@ -47,6 +47,29 @@ def run(chk):
         if z is not None and z.cols_text != z.cols_fields:
             prop_fail.append({"case": "zoo %s" % name, "key": {"zoo": name, "where": "Fields()"},
                               "clause": "max levels / repetition types declared by the generated Fields() differ from the struct's schema", "got": z.cols_fields, "want": z.cols_text})
+    # process history: threerep has the column paths of three with another optional/list structure on every path; each
+    # is written after an instance of the other in ONE process and its pages must still be the striping of ITS schema
+    # (seeded change C03-r8: max levels memoised process-wide per dotted column path)
+    tr = filelevel.load_zoos(pair, ["threerep"]).get("threerep")
+    t3 = zs.get("three")
+    hist_runs = 0
+    if tr is not None and t3 is not None:
+        gh = zoolib.Gen(chk.rng, mode="pool")
+        wop = lambda c: "zoo-write %s %d %d %s" % (c.zoo.name, c.max, c.codec, c.go_ops)
+        for first, second in ((t3, tr), (tr, t3)):
+            a_ = filelevel.Case(first, 2, 0, [("a", gh.record(first.nodes)) for _ in range(3)] + [("w",), ("c",)], "process-history")
+            b_ = filelevel.Case(second, 100, 0, [("a", gh.record(second.nodes)) for _ in range(6)] + [("w",), ("c",)], "process-history")
+            r = pair.impl([wop(a_), wop(b_)])                         # ONE fresh process, two instances after each other
+            fb = r[1].split(" ")[0]
+            ent = pair.model(["entries %s %d %s -" % (second.cols_text, b_.max, fb)])[0]
+            wantb = "ok " + "/".join(pair.model(["stripes %s %s" % (second.cols_text, ";".join(second.proj(x) for x in b)) for b in zoolib.batches(b_.ops)]))
+            hist_runs += 1
+            if ent != wantb:
+                prop_fail.append({"case": "%s\nAFTER (same process) %s" % (b_.key()[:1500], a_.key()[:800]), "key": {"zoo": second.name, "where": "process-history"},
+                                  "clause": "levels/values stored for struct %s are not the Dremel striping of the records when an instance for struct %s (same column paths, other repetition types) was used earlier in the process" % (second.name, first.name),
+                                  "got": ent[:800], "want": wantb[:800]})
+            else:
+                nontrivial.add("history:" + second.name)
     for c, g in zip(cases, got):
         tags[c.zoo.name + "/" + c.tag] = tags.get(c.zoo.name + "/" + c.tag, 0) + 1
         nrec += sum(1 for o in c.ops if o[0] == "a")
